@@ -109,8 +109,24 @@ def persistence_case(fail, desc):
     info = dict(desc)
     try:
         if desc["source"] == "new":
-            w, _, outs = ec.run_case((desc["scene"], [tuple(o) for o in desc["history"]]), mode=desc["mode"], depth=desc["depth"])
+            w, _, outs = ec.run_case((desc["scene"], [tuple(o) for o in desc["history"]]), mode=desc["mode"], depth=desc["depth"],
+                                     modes=desc.get("modes"))
             docs = [ob for i, ob in enumerate(w.objs) if w.kind(i) == ec.KDOC]
+            # adoption: every layer below a document reports it and carries pixel data of its colour mode
+            for di, d in enumerate(docs):
+                want = len(d.pil_mode.rstrip("A")) if d.pil_mode != "L" else 1
+                for l in d.descendants():
+                    if l._psd is not d:
+                        fail("adopted-layer-psd", dict(info, layer=l.name), "layer %s reports another document" % l.name,
+                             "every layer below a document reports it")
+                    elif not l.is_group() and desc["depth"] == 8:
+                        try:
+                            a = l.numpy()
+                        except Exception:  # noqa: reported as layer-unreadable below
+                            a = None
+                        if a is not None and a.shape[2] not in (want, want + 1):
+                            fail("adopted-layer-mode", dict(info, layer=l.name), "pixel planes %d" % a.shape[2],
+                                 "%d colour planes (+ alpha) of a %s document" % (want, d.pil_mode))
             info["has_pixel_layer"] = any(w.kind(i) == ec.KPIXEL for i in range(len(w.objs)))
         else:
             doc = PSDImage.open(desc["source"])
@@ -357,6 +373,17 @@ def gen_persistence(ck):
             for j in range(2):
                 ops = [("NewDoc", 6, 6), ("NewGroup", 0), ("NewGroup", 1), ("NewGroup", 0), ("MoveUp", 3, -1)][: 3 + 2 * j]
                 descs.append({"source": "new", "mode": mode, "depth": depth, "scene": 7, "history": [list(o) for o in ops]})
+    # groups WITH members (and single layers) moved between documents of different colour modes (scene 3 has two documents)
+    for modes in (["RGB", "L"], ["L", "RGB"]):
+        for ops in ([("MoveToGroup", 3, 1)], [("MoveToGroup", 3, 6)], [("Remove", 0, 3), ("Append", 1, 3)],
+                    [("Remove", 0, 3), ("Insert", 6, 0, 3)], [("GroupLayers", [3, 2], 1)], [("MoveToGroup", 6, 3), ("MoveToGroup", 3, 1)],
+                    [("MoveToGroup", 4, 6)], [("MoveToGroup", 5, 3), ("MoveToGroup", 3, 1)], [("NewGroup", 3), ("MoveToGroup", 4, 7), ("MoveToGroup", 3, 1)],
+                    [("MoveToGroup", 3, 1), ("MoveToGroup", 3, 0)]):
+            descs.append({"source": "new", "mode": modes[0], "modes": modes, "depth": 8, "scene": 3, "history": [list(o) for o in ops]})
+        for j in range(12 if thorough else 4):
+            _, ops = ec.random_walk(rng, 3, rng.choice([3, 6]), ["MoveToGroup", "MoveToGroup", "GroupLayers", "Append", "Remove", "NewGroup", "MoveUp"],
+                                    guarded=ec.structure_guard)
+            descs.append({"source": "new", "mode": modes[0], "modes": modes, "depth": 8, "scene": 3, "history": [list(o) for o in ops]})
     # documents opened from files (the 16/32-bit ones keep their layers in a Lr16/Lr32 block)
     files = [f for f in sorted(glob.glob(os.path.join(core.REPO, "tests", "psd_files", "colormodes", "4x4_*bit_*.psd")))
              if any(t in f for t in ("_rgb", "_grayscale", "_cmyk"))]
@@ -379,6 +406,9 @@ def run():
                "files) and compares names, kinds, nesting, order, attributes and pixels; non-trivial = distinct history")
     if ck.coq_build(["theories/Edit/Corr.v", "theories/Properties/C09.v"]):
         ck.collect_theorems("C09.v")
+    # the repairs committed to /repo are expected to be present: a probe that answers "old variant" is a regression
+    ck.obligations.append(("code-variant:all-repairs-present", all(ec.code_variant()),
+                           "" if all(ec.code_variant()) else "probed (clipfix, selffix, descfix, clipsfix, cachefix) = %r" % (ec.code_variant(),)))
     cases, sizes = gen_cases(ck)
     for k, v in sizes.items():
         ck.count("cases:" + k, v)
@@ -407,7 +437,7 @@ def run():
     descs = gen_persistence(ck)
     pres = ec.parallel_map(_pwork, descs, chunk=5)
     for d, fails in zip(descs, pres):
-        ck.count("persist:%s" % ("file" if d["source"] != "new" else "%s/%d" % (d["mode"], d["depth"])))
+        ck.count("persist:%s" % ("file" if d["source"] != "new" else "cross-mode" if d.get("modes") else "%s/%d" % (d["mode"], d["depth"])))
         ck.nontriv(("p", json.dumps(d, sort_keys=True)))
         for kind, inp, obs, exp in fails:
             ck.fail(kind, inp, obs, exp)
